@@ -508,19 +508,24 @@ func (v *UnixVolume) Untrash(loc string) (err error) {
 	for _, f := range files {
 		if strings.HasPrefix(f.Name(), prefix) {
 			foundTrash = true
+			// The trashed copy carries the (old) timestamp it had
+			// when it was trashed, and it may be about to replace a
+			// freshly written copy. Give it a current timestamp,
+			// like the S3 driver does with its recent/ marker, so
+			// the untrashed block is protected from garbage
+			// collection for another BlobSigningTTL. Do this
+			// before renaming, so a concurrent Trash() never sees
+			// the old timestamp on the block path.
+			ts := time.Now()
+			v.os.stats.TickOps("utimes")
+			v.os.stats.Tick(&v.os.stats.UtimesOps)
+			err = os.Chtimes(v.blockPath(f.Name()), ts, ts)
+			v.os.stats.TickErr(err)
+			if err != nil {
+				continue
+			}
 			err = v.os.Rename(v.blockPath(f.Name()), v.blockPath(loc))
 			if err == nil {
-				// The untrashed copy carries the (old) timestamp it had
-				// when it was trashed, and it may just have replaced a
-				// freshly written copy. Give it a current timestamp,
-				// like the S3 driver does with its recent/ marker, so it
-				// is protected from garbage collection for another
-				// BlobSigningTTL.
-				ts := time.Now()
-				v.os.stats.TickOps("utimes")
-				v.os.stats.Tick(&v.os.stats.UtimesOps)
-				err = os.Chtimes(v.blockPath(loc), ts, ts)
-				v.os.stats.TickErr(err)
 				break
 			}
 		}
